@@ -63,7 +63,7 @@ def run(ctx):
     rng = ctx.rng
     cs = c07.cases(ctx, ctx.budget(500, 10000), multi_match=False, mixes=False, misuse=0.03, bool_ops=True)
     from .. import trees
-    hist = trees.SharedObjects(ctx, rng, "ElasticsearchQueryBuilder")
+    hist = trees.SharedObjects(ctx, rng, "ElasticsearchQueryBuilder", known_params={"tree"})
     I = common.impl()
     for ci, (schema, cfg, d, r, raw) in enumerate(c07.run_cases(ctx, cs)):
         ok = "ok" in r
